@@ -276,7 +276,8 @@ def run_unit(unit_name, template_rel, variant):
             text, stats = extract.generate(tpl, variant, canary=False)
             ctext, _ = extract.generate(tpl, variant, canary=True)
             ptext = None
-            if "@@borrowprobe" in open(tpl).read():
+            tpl_text_ = open(tpl).read() + "".join(open(os.path.join(VERIF, "contracts", m_)).read() for m_ in re.findall(r"^@@include\s+(\S+)", open(tpl).read(), re.M) if os.path.exists(os.path.join(VERIF, "contracts", m_)))
+            if "@@borrowprobe" in tpl_text_:
                 ptext, _ = extract.generate(tpl, variant, canary=False, probe=True)
     except ExtractError as e:
         res["status"] = "undecided"
